@@ -4,7 +4,7 @@ import json, os
 HERE = os.path.dirname(os.path.abspath(__file__))
 BASE = json.load(open("/root/.vp/BASELINE.json"))["cmd"] if os.path.exists("/root/.vp/BASELINE.json") else "cd /repo && /venv/bin/python -m pytest -ra -q -p no:cacheprovider --timeout=900 --continue-on-collection-errors"
 PIPE_NOTE = ("Trusted base: CPython, the vendored corpus (sha256-pinned), the layout operators' meaning-preservation argument (DESIGN 3.1), "
-             "docs/*_rules.rst as the specification of rule classes. Bounded: seeds x <=1 layout deviation x <=1 option deviation (see evidence.coverage.bound).")
+             "docs/*_rules.rst as the specification of rule classes. Bounded: seeds x <=1 layout deviation x <=1 option deviation, the rule-focused slice F, the configuration that enables every optional rule and the whole design on one line (see evidence.coverage.bound and DESIGN 17).")
 NOTE_PLAIN = ("Trusted base: CPython, the vendored corpus (sha256-pinned), the documented option domains (specs/option_domains.json), the parsers of VSG's own report formats written in the check. "
               "Bounded as stated in evidence.coverage.")
 C = {}
@@ -20,13 +20,13 @@ claim("C02", "model_checking",
       "A numbered comment is placed at every whitespace gap, line end and line boundary of every seed in the bound; after every rule application the ordered list of comment/pragma/preprocessor texts must be unchanged (documented normalisation aside) unless an allow-listed remover deleted entries, no code may be left on the line of a comment, and the written text is re-read and compared with the final model.",
       "DESIGN.md §6 C02", "bounded-exhaustive exploration of the fix pipeline over all single comment placements; per-transition comment-sequence invariant")
 claim("C03", "model_checking",
-      "Every rule application inside every explored --fix execution of the real pipeline is checked against the documented class of that rule (layout groups: only whitespace tokens change; case: only letter case, literals and line lengths untouched; naming/length/unfixable/fixable:false/non-error severity/disabled: no change, disabled never called). Exhaustive within the stated input/config bound.",
+      "Every rule application inside every explored --fix execution of the real pipeline is checked against the documented class of that rule (layout groups: only whitespace tokens change; case: only letter case, literals and line lengths untouched; naming/length/unfixable/fixable:false/non-error severity/disabled: no change, disabled never called; a run in which only never-change rules found anything does not rewrite the file). Exhaustive within the stated input/config bound.",
       "DESIGN.md §6 C03", "bounded-exhaustive exploration of the real fix pipeline; per-transition class predicate")
 claim("C04", "exploration",
-      "Tokenizer: exhaustive over all strings up to length 4 (quick) / 5-6 (thorough) over a 26-symbol alphabet; parser: parse/emit identity, full classification and line-break count on every single layout deviation of the seeds; clean files: content, inode, mtime, mode untouched by --fix / --fix --backup / plain runs of the real main().",
+      "Tokenizer: exhaustive over all strings up to length 5 over a 28-symbol alphabet (quick) / 30 symbols plus length 6 over a 20-symbol core (thorough); parser: parse/emit identity, full classification and line-break count on every single layout deviation of the seeds and on the one-line form of every comment-free seed; files without fixable violations (violation-free, or reporting only through unfixable / fixable:false / non-error rules): content, inode, mtime, mode untouched by --fix / --fix --backup / plain runs of the real main().",
       "DESIGN.md §6 C04", "exhaustive enumeration of strings up to a length bound and of single layout deviations against the real code", NOTE_PLAIN)
 claim("C05", "exploration",
-      "For every seed and every single meaning-preserving re-layout the property names (whitespace resize/removal/insertion, tab, line split/join at whitespace, end-of-line and own-line comments, blank lines, indentation, trailing whitespace, case of one or all words) the role sequence of the re-parsed variant equals that of the seed and the variant is accepted; thorough adds all seeds and 2-deviation pairs on the generated singles.",
+      "For every seed and every single meaning-preserving re-layout the property names (whitespace resize/removal/insertion, tab, line split/join at whitespace, end-of-line and own-line comments, blank lines, indentation, trailing whitespace, case of one or all words, all line breaks removed) the role sequence of the re-parsed variant equals that of the seed and the variant is accepted; thorough adds all seeds and 2-deviation pairs on the generated singles.",
       "DESIGN.md §6 C05", "bounded-exhaustive differential enumeration of re-layouts against the real classifier", NOTE_PLAIN)
 claim("C06", "model_checking",
       "Explicit-state search over the real analyze(): per input, every enabled rule's analyze edge is taken from the parsed state with a write barrier and canonical-state hashing; when all edges are self-loops the state graph has closed on one node, which gives order- and subset-independence for all orders and subsets; mutating edges are followed and compared; reverse order, repeat, subsets and PYTHONHASHSEED 1/2 are executed concretely.",
@@ -47,19 +47,19 @@ claim("C11", "model_checking",
       "The tag state machine is explored exhaustively (all tag-event sequences to depth 3 quick / 4 thorough over a 14-symbol alphabet) with the real parse+analysis compared against a reference model written from docs/code_tags.rst; every placement of off/on pairs and next-line tags at admissible line boundaries of real seeds is compared with the model filter of the neutral-comment report.",
       "DESIGN.md §6 C11", "exhaustive exploration of the tag state machine to a depth and of tag placements, real code against a reference model")
 claim("C12", "exploration",
-      "For every live rule and every configurable attribute all 81 assignments of {unset,v1,v2} to the four configuration levels go through the real configure path and are compared with the precedence model; two-file merges in both orders; layered vs single-level behavioural agreement on fixtures; deprecated/unknown ids must be configuration errors.",
+      "For every live rule and every configurable attribute all 81 assignments of {unset,v1,v2} to the four configuration levels go through the real configure path and are compared with the precedence model; for rules in two groups one attribute through each group; two-file merges in both orders; layered vs single-level behavioural agreement on fixtures; deprecated/unknown ids at rule level and in per-file sections (also next to a valid rule section) must be configuration errors.",
       "DESIGN.md §6 C12", "exhaustive enumeration of the four-level precedence lattice per rule and attribute on the real configure path against a reference model", NOTE_PLAIN)
 claim("C13", "model_checking",
-      "Reference model of the phase gate against the real apply_rules for N in 1..7, all skip sets of size <= 2 (all 128 on the smallest seeds), phase re-assignments and severity flips: gated report is the model prefix of the all-phases report, announced stop phase, --fix_phase N applies no rule of a later or skipped phase and equals the phase-N boundary text of the full fix.",
+      "Reference model of the phase gate against the real apply_rules for N in 1..7, all skip sets of size <= 2 (all 128 on the smallest seeds), phase re-assignments and severity flips: gated report is the model prefix of the all-phases report, announced stop phase, a configured phase is the phase the rule runs in, a --fix run that fixes nothing reports what the gated check reports, --fix_phase N applies no rule of a later or skipped phase and equals the phase-N boundary text of the full fix.",
       "DESIGN.md §6 C13", "explicit enumeration of the phase-gate state space on the real code against a reference model")
 claim("C14", "exploration",
-      "All ordered file sets of size 1-2 (3 thorough) over a 9-file alphabet x 5 severity configurations x {gated,-ap,--fix} x 3 stdout formats through the real main() with --json --junit --quality_report; every artefact parsed back and compared with the ground set; counts against rows; exit status against error-type violations and processing failures.",
+      "All ordered file sets of size 1-2 (3 thorough) over an 11-file alphabet (among them a zero-byte file and one rule reporting twice on one line) x 5 severity configurations x {gated,-ap,--fix} x 3 stdout formats through the real main() with --json --junit --quality_report; every artefact parsed back and compared with the ground set; counts against rows; exit status against error-type violations and processing failures.",
       "DESIGN.md §6 C14", "bounded-exhaustive enumeration of file sets x configurations x formats against the real CLI; projection consistency oracle", NOTE_PLAIN)
 claim("C15", "model_checking",
-      "Process-global state graph under apply_rules(file) edges (fingerprint of every module/class-level container) must stay on one node; all histories of length <= 3 over a 9-file alphabet compared with solo results; main() under a controlled pool with every task-to-worker assignment enumerated; real Pool as conformance; by-name vs --stdin on every seed.",
+      "Process-global state graph under apply_rules(file) edges (fingerprint of every module/class-level container) must stay on one node; all histories of length <= 3 over a 10-file alphabet (and over a sub-alphabet configured through file_list in another order than the batch) compared with solo results; main() under a controlled pool with every task-to-worker assignment enumerated; real Pool as conformance; by-name vs --stdin on every seed.",
       "DESIGN.md §6 C15", "explicit-state exploration of process-global state with closure check; exhaustive enumeration of task-to-worker assignments under a controlled pool")
 claim("C16", "fault_enumeration",
-      "Every OS-level call of the real --fix write-back history is a crash point (kill before/after, torn writes) and a fault site (6 OSError kinds, singly and in ordered pairs), plus a rule raising at its m-th repair, x backup x modes x inputs; executions run in forked children; the all-or-nothing / mode / backup / tmp-file invariant is read off the directory.",
+      "Every OS-level call of the real --fix history, the read included (failure before the first or in the middle of the lines), is a crash point (kill before/after, torn writes) and a fault site (6 OSError kinds, singly and in ordered pairs), plus a rule raising at its m-th repair, x backup x modes x inputs (among them a Latin-1 file checked against the fixed bytes of its UTF-8 twin) x a stale backup; executions run in forked children; the all-or-nothing / mode / backup / tmp-file invariant is read off the directory.",
       "DESIGN.md §6 C16", "exhaustive enumeration of crash points and injected OS-call failures over the real write-back history",
       "Trusted base: CPython, POSIX rename atomicity, the interception points (names os/shutil/open as seen from vsg.apply_rules and vsg.vhdlFile.utils). Kernel-level torn renames and power loss without fsync are outside the model.")
 claim("C17", "exploration",
@@ -72,7 +72,7 @@ claim("C19", "exploration",
       "Every live rule analysed and fixed in isolation on every seed (and under documented option values on its fixture), the whole pipeline on every variant of the shared universe, and every single-token mutation of small seeds through the real main(): no exception, no hang within the horizon, rejected files reported with a located message, exit 1 and the next file still processed.",
       "DESIGN.md §6 C19", "bounded-exhaustive enumeration of rule x input x option and of single-token mutations against the real code, with a watchdog", NOTE_PLAIN)
 claim("C20", "exploration",
-      "Per seed all fix_only selections derived from its all-phases report (every rule 'all', nothing, each rule 'all', each reported line, adjacent pairs, an unreported line) through the real apply_rules with a per-transition monitor and the line-locality oracle for documented line-local rules.",
+      "Per seed all fix_only selections derived from its all-phases report (every rule 'all', also with a reporting rule demoted to Warning; nothing, in three spellings; each rule 'all', each reported line, adjacent pairs in both orders and with repetition, an unreported line, no line) through the real apply_rules with a per-transition monitor and the line-locality oracle for documented line-local rules.",
       "DESIGN.md §6 C20", "bounded-exhaustive enumeration of fix_only selections against the real code with a per-transition monitor", NOTE_PLAIN)
 
 ALL = [f"C{i:02d}" for i in range(1, 21)]
